@@ -43,7 +43,10 @@ CLAIMED = {
         'constant-load kernel read on the point values with those resultants - so a uniform-stress state reproduces the constant-load '
         'matrix and a table equal to the uniform laminate changes nothing. V + oracle as C02; the same clauses are also evaluated '
         'numerically on the implementation.',
-   note='As C02. Lifting of the point statements to the Gauss sum is by linearity (exactness of the rule: C10).',
+   note='As C02. The point statements are lifted to the whole tensor Gauss rule by theorem (kG_num_uniform_state_*: uniform resultants => the Gauss sum of the '
+        'state-based integrand is the constant-load kernel at the quadrature integrals; _tabulated: for every rule of the C table in its binary64 rounding '
+        'each quadrature integral is within 2e-15 (1-norm) of the real integral when nx >= max(m,4), ny >= max(n,4)); rounding of the basis values and of the '
+        'accumulation is outside.',
    technique='Lean 4 proof over regenerated model + translation validation + oracle', ref='4/C03'),
  'C04': dict(
    text='Regenerated Lean models of fkM/fkMy1y2; 13 theorems: each of the entries equals the Hessian of the kinetic energy '
@@ -51,7 +54,10 @@ CLAIMED = {
         'which reference surface the kernels use; the whole mass matrix is symmetric (transposed position = same value) and positive semi-definite '
         'for mu, h >= 0 (massW_psd: the weight is mu h [(e0-d e3)^2 + (e1-d e4)^2 + e2^2 + h^2/12 (e3^2+e4^2)]; kM_matrix_psd_* for all models). The glue (which d is passed) is checked against the laminate convention by '
         'an oracle, total mass of a rigid translation, positive definiteness on active amplitudes and frequency invariance '
-        'under a move of the reference surface. A genuine defect (wrong sign passed by Panel.calc_kM) was repaired (fix: ca9efb9).',
+        'under a move of the reference surface. A genuine defect (wrong sign passed by Panel.calc_kM) was repaired (fix: ca9efb9). '
+        'TOTAL MASS is a theorem: for the exact real integrals of the all-free Bardell basis (Spec/BardellIntegrals.lean) a rigid translation u, v or w = 1 sees '
+        'c^T M c = mu h a b (strip: mu h a (y2-y1)) for all m, n >= 3, any placement and ANY offset (total_mass_*), and the PSD theorems hold for that basis with no '
+        'hypothesis on the integrals left (kM_matrix_psd_bardell_*).',
    note='As C02; LAPACK eigh trusted for the invariance predicate.',
    technique='Lean 4 proof over regenerated model + translation validation + oracle', ref='4/C04'),
  'C10': dict(
@@ -103,7 +109,9 @@ CLAIMED = {
         'model arm of the search: translated conical kernels at zero angle vs translated cylindrical kernels (source as written).',
    note='As C02; eigenvalue statements follow from the matrix congruences (not formalised as spectra); the numeric-vs-analytic kernel '
         'pair at the undeformed state is a theorem of C08 (kL_at_zero_eq_k0_*) at one integration point, summed by the exactness of the rule (C10); '
-        'here it is compared on the implementation, also with the force_orthotropic_laminate option.',
+        'and now for the whole tensor Gauss rule (num_at_zero_eq_analytic_*: exact identity at the quadrature integrals for ANY laminate table; _tabulated: '
+        'tolerance to the real integrals for every tabulated rule with nx >= max(m,4), ny >= max(n,4)); also compared on the implementation, with the '
+        'force_orthotropic_laminate option.',
    technique='Lean 4 proof over regenerated models + pairwise implementation comparison', ref='4/C14'),
  'C15': dict(
    text='Decided by proof only in its algebraic half: the dof map is injective and embeds the (m,n) amplitudes into every larger (m\',n\') '
@@ -272,11 +280,20 @@ CLAIMED = {
         'the Lean driver, kTuu and fint re-assembled from the recorded outputs). Implementation arm over all 12 non-linear-capable models, '
         'cylinders and cones, both rules, with/without imperfection, prescribed amplitudes with inc != 1: symmetry, fint(0) = 0, kT d = exact '
         '(quartic-exact 5-point) derivative of fint, quadratic vanishing of fint - k0 c, identical results for 1..8 threads. Four models whose '
-        'compiled integrands violate the Jacobian relation on the unchanged tree are recorded as known findings.',
-   note='PARTIAL: the pointwise Jacobian relation of the compiled integrands (cfk0L, cfkLL, cfkG, cffint; 13 generated modules) is a HYPOTHESIS of '
-        'the theorem and is decided on the implementation only; OpenMP scheduling / -ffast-math / rounding outside the model. Trusted: Lean kernel, '
-        'Mathlib, hand model (tied on explored cases).',
-   technique='Lean 4 proof over hand model (kernels as parameters) + recorded-kernel-call correspondence + exact finite-difference oracle', ref='4/C17'),
+        'compiled integrands violate the Jacobian relation on the unchanged tree are recorded as known findings. '
+        'STAGE 2 (the kernels themselves): the pointwise content of cfk0L / cfkLL / cfkG / cffint and of the commons functions that feed them is REGENERATED '
+        'from the ten CLPT *_nonlinear.pyx sources on every run (Gen/ConeCylNL); the Jacobian expansion is proved once abstractly from nine structural identities '
+        '(resultants = laminate x strains, fint = r(B0^T N_L + B_L^T (N0+N_L)), k0L = r B0^T F B_L, kLL = r B_L^T F B_L, kG = r N d2eps_L, increments affine and '
+        'reciprocal) that are ~900 kernel-checked ring / field_simp cases per model on the regenerated terms, lifted to the quadrature and to the matrices '
+        '_calc_NL_matrices forms for ANY m1, m2, n2: shell_tangent_is_jacobian_<model> discharges the hypothesis of the glue theorem for clpt_donnell_bc1..4 and '
+        'iso_clpt_donnell_bc2/3; for the Sanders family the theorems are ..._partial with kernel-checked ..._counterexample (row of amplitude 2 in cfk0L; bc2: k0L '
+        'skips row > col although it enters as k0L + k0L^T; bc3: cfstrain_sanders lacks a gamma term) - which explains two of the recorded findings at source level; '
+        'fsdt_donnell_bc1 / bcn: translated, validated, refuted by kernel evaluation. V: the IR interpreted at the integration points vs the compiled modules (1e-15).',
+   note='PARTIAL: positive statements for the FSDT kernels are missing (refutations only); that every COO position receives exactly one triplet is checked by the '
+        'translator and by V, not a theorem; OpenMP scheduling / -ffast-math / rounding outside the model. Trusted: Lean kernel, Mathlib, the translators '
+        'gen_conecyl_nl.py / gen_shell_jacobian.py (which identities are CLAIMED is decided by an untrusted exact pre-evaluation; Lean checks every emitted lemma), '
+        'hand model of the glue (tied on explored cases).',
+   technique='Lean 4 proof over models regenerated from source (non-linear shell kernels) + hand model of the glue + translation validation + exact finite-difference oracle', ref='4/C17'),
 }
 
 NA_REASON = {
